@@ -606,6 +606,10 @@ def join_path(root: str, rel: str) -> str:
 def gen_rel_path(rs) -> str:
     depth = rs.choice([0, 0, 1, 2, 3])
     parts = [rs.choice(PATH_PARTS) for _ in range(depth)]
+    if depth and rs.random() < 0.1:
+        # directory names repeat along a path: a sub-directory called like
+        # (the last component of) an audio directory, "aud/aud/x.wav"
+        parts[0] = rs.choice(AUDIO_ROOTS).rsplit("/", 1)[-1]
     if depth and rs.random() < 0.08:
         # a ".." segment that does not leave the directory it is under: a
         # path keeps the spelling it was given ("a/../b.wav" is not "b.wav")
